@@ -283,3 +283,39 @@ def run_cstr_args(prog, rep):
     if n < 1:
         raise AnalysisBroken('R-NULL-CSTR: no C-string call on a pointer parameter found (anchor: Variant::set(const char *))')
     return rule
+
+
+# value types of the library that hold a reference: each confirmed by reading (who creates it, how long it lives)
+REF_MEMBERS = {
+    ('nix::Hydra', 'value'): 'adapter around the caller\'s container; non-const reference (cannot bind a temporary), created and used inside one DataIO call',
+    ('nix::valid::dimTicksMatchData', 'data'): 'validator functor, constructed from a named DataArray inside one validate() expression and used there',
+    ('nix::valid::dimLabelsMatchData', 'data'): 'validator functor, constructed from a named DataArray inside one validate() expression and used there',
+    ('nix::valid::dimDataFrameTicksMatchData', 'data'): 'validator functor, constructed from a named DataArray inside one validate() expression and used there',
+}
+
+
+def run_ref_members(prog, rep):
+    """an object the user may keep (filters, handles, sizes, variants) owns what it needs: a reference member bound to a
+    constructor argument dangles as soon as that argument was a temporary (use after free on a later call)"""
+    rule = rep.rule('R-REFMEMBER', 'no library value type keeps a reference to a constructor argument (reference-typed data members are exactly the tabled, reviewed ones)', floor=3)
+    n = 0
+    nrec = 0
+    for q, r in sorted(prog.records.items()):
+        if not q.startswith('nix::') or q.startswith('nix::hdf5::'):
+            continue
+        nrec += 1
+        for fld in r['fields']:
+            t = (fld.get('ctype') or fld['type']).rstrip()
+            if not t.endswith('&'):
+                continue
+            n += 1
+            key = '%s::%s' % (q, fld['name'])
+            where = '%s:%s' % (prog.rel(r['file']), r['line'])
+            reason = REF_MEMBERS.get((q, fld['name']))
+            if reason:
+                rule.ok(key, where, q, 'tabled: ' + reason, nontrivial=False)
+            else:
+                rule.bad(key, where, q, 'member %s has reference type %s: an object built from a temporary (e.g. Filter(entity.id())) refers to freed memory when it is used in a later statement' % (fld['name'], t))
+    if nrec < 60 or n < 3:
+        raise AnalysisBroken('R-REFMEMBER: only %d records / %d reference members seen' % (nrec, n))
+    return rule
